@@ -346,9 +346,10 @@ class Standardize(PostProcessor):
             np.save(wfilename, self._stats)
         elif wfilename.endswith(".npz"):
             array = dict()
-            if overwrite:
+            if not overwrite:
                 try:
-                    array = np.load(wfilename)
+                    with np.load(wfilename) as archive:
+                        array = dict(archive)
                 except IOError:
                     pass
             if key is None:
